@@ -683,9 +683,15 @@ namespace pm
                ctx d = c;
                d.act = false;
                const std::size_t tmk = tree_mark();
+               const std::size_t emark = events.size();
                outcome r = seq_kids( n, 0, pos, d );
                if( r.k == FAIL ) {
                   tree_rollback( tmk );
+                  // not_at< A, B >: A matched (its actions may have run below an enable<>), B failed - nothing of A survives
+                  if( events.size() > emark ) {
+                     events.resize( emark );
+                     saw_discarded_event = true;
+                  }
                }
                if( r.k == OK ) {
                   if( r.end > pos ) {
